@@ -318,7 +318,9 @@ class AsynchronousDeferredRunTest(_DeferredRunTest):
             d = defer.maybeDeferred(f, *args, **kwargs)
             try:
                 yield d
-            except Exception:
+            except GeneratorExit:
+                raise
+            except BaseException:
                 exc_info = sys.exc_info()
                 self.case._report_traceback(exc_info)
                 last_exception = exc_info[1]
